@@ -77,16 +77,32 @@ def c_case(case: Dict[str, Any], prefix: str, alphabet, xorder, M) -> str:
     CP, C, D, E, R, U = M
     markers = solverlib.all_markers(case, U)
     out = [f"Definition {prefix}_env : env := {c_env(markers, alphabet, xorder)}."]
-    uni = []
-    for key, cands in case["universe"].items():
-        cs = []
-        for cand in cands:
-            cname, ver, reqs, readable = cand[:4]
-            sdist = bool(cand[4]) if len(cand) > 4 else False
-            d = c_dist(cname, ver, [U.parse_requirement(r) for r in reqs], False, U)
-            cs.append(f"(mkCand {c_str(cname)} {d} {'true' if readable else 'false'} {'true' if sdist else 'false'})")
-        uni.append(f"({c_str(U.normalize_project_name(key))}, {c_list(cs)})")
-    out.append(f"Definition {prefix}_universe : universe := {c_list(uni)}.")
+
+    def c_universe(universe) -> str:
+        uni = []
+        for key, cands in universe.items():
+            cs = []
+            for cand in cands:
+                cname, ver, reqs, readable = cand[:4]
+                sdist = bool(cand[4]) if len(cand) > 4 else False
+                d = c_dist(cname, ver, [U.parse_requirement(r) for r in reqs], False, U)
+                cs.append(f"(mkCand {c_str(cname)} {d} {'true' if readable else 'false'} {'true' if sdist else 'false'})")
+            uni.append(f"({c_str(U.normalize_project_name(key))}, {c_list(cs)})")
+        return c_list(uni)
+
+    if case.get("stack"):
+        # a stack of repositories (MultiRepository): [(universe, allow_prerelease of that repository)]
+        levels = []
+        for i, lvl in enumerate(case["stack"]):
+            out.append(f"Definition {prefix}_universe{i} : universe := {c_universe(lvl['universe'])}.")
+            levels.append(f"({prefix}_universe{i}, {'true' if lvl['allow_pre'] else 'false'})")
+        mk = lambda n, reqs: c_dist(n, None, [U.parse_requirement(r) for r in reqs], True, U)
+        out.append(f"Definition {prefix}_inputs : list dist := {c_list([mk(n, r) for (n, r) in case['inputs']])}.")
+        md = "None" if case["max_downgrade"] is None else f"(Some {case['max_downgrade']})"
+        out.append(f"Definition {prefix}_run (fuel : nat) : cres := perform_compile_stack fuel {prefix}_env {c_list(levels)} "
+                   f"{prefix}_inputs None false {md}.")
+        return "\n".join(out)
+    out.append(f"Definition {prefix}_universe : universe := {c_universe(case['universe'])}.")
     mk = lambda n, reqs: c_dist(n, None, [U.parse_requirement(r) for r in reqs], True, U)
     out.append(f"Definition {prefix}_inputs : list dist := {c_list([mk(n, r) for (n, r) in case['inputs']])}.")
     cons = "None" if case["constraints"] is None else "(Some " + c_list([mk(n, r) for (n, r) in case["constraints"]]) + ")"
